@@ -374,7 +374,7 @@ class Simplex:
         assert isinstance(ineq, InEquation)
         self.original.append(ineq)
         if isinstance(ineq, GreaterEq):
-            if len(ineq.jars) == 1: # a * x >= b
+            if len(ineq.jars) == 1 and ineq.jars[0].coeff != 0: # a * x >= b
                 jar = ineq.jars[0]
                 coeff, var_name, lower_bound = jar.coeff, jar.var, ineq.lower_bound
                 self.input_vars.add(var_name)
@@ -405,7 +405,9 @@ class Simplex:
                         self.nbasic_basic[var_name].add(s)        
             
                     if var_name not in self.mapping:
-                        self.mapping.update({var_name : Pair(0, 0), s : Pair(0, 0)})
+                        self.mapping[var_name] = Pair(0, 0)
+                    if s not in self.mapping:
+                        self.mapping[s] = coeff * self.mapping[var_name]
                     self.bound[s] = (Pair(-math.inf, 0), Pair(math.inf, 0))
                     if var_name not in self.bound:
                         self.bound[var_name] = (Pair(-math.inf, 0), Pair(math.inf, 0))
@@ -443,7 +445,7 @@ class Simplex:
                 self.bound[s] = (Pair(-math.inf, 0), Pair(math.inf, 0))
 
         elif isinstance(ineq, LessEq):
-            if len(ineq.jars) == 1: # a * x <= b
+            if len(ineq.jars) == 1 and ineq.jars[0].coeff != 0: # a * x <= b
                 jar = ineq.jars[0]
                 coeff, var_name, upper_bound = jar.coeff, jar.var, ineq.upper_bound
                 self.input_vars.add(var_name)
@@ -470,7 +472,9 @@ class Simplex:
                     self.basic.add(s)
                     self.non_basic.add(var_name)
                     if var_name not in self.mapping:
-                        self.mapping.update({var_name : Pair(0, 0), s : Pair(0, 0)})
+                        self.mapping[var_name] = Pair(0, 0)
+                    if s not in self.mapping:
+                        self.mapping[s] = coeff * self.mapping[var_name]
                     self.bound[s] = (Pair(-math.inf, 0), Pair(math.inf, 0))
                     if var_name not in self.nbasic_basic:
                         self.nbasic_basic[var_name] = {s}
@@ -877,7 +881,7 @@ class SimplexHOLWrapper:
         
         # Check the necessity to introduce new variables
         if not (len(ineq.jars) == 1 and ineq.jars[0].coeff == 1): # need to introduce a new variable
-            s = Var('$'+string.ascii_lowercase[self.simplex.index - 1]+'$', RealType)
+            s = Var(self.simplex.matrix[ineq.jars], RealType)
             s_eq_pt = ProofTerm.assume(Eq(s, lhs))
             self.eq_pts[s] = s_eq_pt
             self.intro_eq.add(s_eq_pt)
